@@ -8,3 +8,10 @@ import VibeProof.Props.C12
 #print axioms VibeProof.C12.C12_delete_parent_preserves
 #print axioms VibeProof.C12.C12_update_parent_no_action
 #print axioms VibeProof.C12.C12_self_reference_counterexample
+#print axioms VibeProof.C12.C12_cascade_terminates
+#print axioms VibeProof.C12.C12_delete_cascade_preserves
+#print axioms VibeProof.C12.C12_cascade_removes_closure
+#print axioms VibeProof.C12.C12_cascade_removes_only_closure
+#print axioms VibeProof.C12.C12_cascade_removes_exactly_closure
+#print axioms VibeProof.C12.C12_update_parent_cascade_preserves
+#print axioms VibeProof.C12.C12_cyclic_cascade_exhausts_fuel
